@@ -466,7 +466,10 @@ class ArithmeticPulseTemplate(PulseTemplate):
             for ch, value in scalar.items():
                 scalar[ch] = value * self.duration.sympified_expression
 
-        return self._apply_operation_to_channel_dict(integral, scalar)
+        # the operands are a mix of sympy expressions and ExpressionScalars: the results are wrapped so that
+        # enclosing templates (mapping, loop, arithmetic) can process them like every other integral
+        return {ch: ExpressionScalar(value)
+                for ch, value in self._apply_operation_to_channel_dict(integral, scalar).items()}
 
     def _apply_operation_to_channel_dict(self,
                                          pt_values: Dict[ChannelID, ExpressionScalar],
